@@ -119,7 +119,11 @@ func (g *degrader) field(f *Field) {
 				f.Default = nil
 			}
 		case "cue":
-			if g.level >= 2 && k == SStruct {
+			if rt := g.d.resolve(f.Ty); g.level >= 2 && f.Nullable && rt != nil && rt.Kind == SStruct {
+				// `null | #S | *{…}`: cog's Python output prints the default in Go syntax
+				g.log["default.struct.nullable→dropped"]++
+				f.Default = nil
+			} else if g.level >= 2 && k == SStruct {
 				// Python output for a default on an inline struct is not Python (Go %#v syntax)
 				g.log["default.struct.inline→dropped"]++
 				f.Default = nil
